@@ -80,7 +80,7 @@ TEXTS = {
  "C12": dict(
   level_text=("Metamorphic: each generated lossy run of two raw cores is executed unshifted and with drawn offsets (sn of each direction, clock) biased so that 2^32 and 2^31 fall inside the transfer; delivered data, statistics and the datagram traces normalised by the offsets must be identical at identical virtual times. "
               "FEC ids: every arrival order for ratios d+p<=4 gives the same recoveries at id 0 and at 8 other positions incl. the wrap (plus C07's positions)."),
-  level_note=E1 + " is exactly deterministic (one goroutine). sn/ts of WASK/WINS segments are template left-overs and not compared. Session-level E2 metamorphic runs are not implemented.",
+  level_note=E1 + " is exactly deterministic (one goroutine). sn/ts of WASK/WINS segments are template left-overs and not compared. TestC12SessionFECWrap runs real lossy FEC sessions whose encoders start a few groups before their wrap value (decoders seeked consistently) with the clock near a wrap point, under C01's content oracle and the wire decoder; a full session-level trace-equality run is not implemented.",
   rule="Non-trivial = a boundary (2^31 or 2^32 of a sequence space or of the clock) was crossed during the transfer."),
  "C13": dict(
   level_text=("rapid state machines over a real session pair / a real listener in virtual time. Rules: start Read/Write/Accept (<=3 blocked each), peer writes (several messages per datagram), peer reads (window opens), Set{,Read,Write}Deadline with zero/past/now/future, advance time, Close (twice), socket read/write error, new peers. "
